@@ -382,11 +382,21 @@ def run(ctx):
 
             # apply_symetry_on_elast_data on the same data (lower-case keys by construction)
             if ci % 2 == 0:
+                # every second of these tables is written in other units (x 1/1024: GPa -> roughly Mbar): still the same
+                # invariant tensor field, but every constant stays well below 0.1 - and the settings are spelled out
+                small = (ci % 4 == 2)
+                if small:
+                    tensors = [[x / 1024 for x in t] for t in tensors]
+                    scale = scale / 1024
+                    ctx.count("apply_symetry_on_elast_data: table scaled by 1/1024, explicit settings")
+                sym_settings = dict(system=system)
+                if small:
+                    sym_settings.update(ignore_residuals=False, ignore_rank=False, residual_atol=0.1, drop_atol=1e-8)
                 vols = [ED.ElastVolumeData(60.0 + r, dict((c_(*KEYS21[i]), float(tensors[r][i])) for i in S))
                         for r in range(nrows)]
                 data = ED.ElastData(60.0, nrows, 100.0, vols, [])
                 try:
-                    ED.apply_symetry_on_elast_data(data, dict(system=system))
+                    ED.apply_symetry_on_elast_data(data, sym_settings)
                     cols2 = [(SYMS[i], [float(t[i]) for t in tensors]) for i in S]
                     keys_out = list(data.volumes[0].static_elastic_modulus.keys())
                     got = [("c%d%d" % tuple(k.v), [float(v.static_elastic_modulus[k]) for v in data.volumes])
